@@ -726,3 +726,13 @@ add("C10", "failures-deduplicated-across-codemods", CTXF,
 add("C10", "benign-failures-extended-from-list-copy", CTXF,
     [("        self._failures_by_codemod.setdefault(codemod_name, []).extend(failed_files)", "        recorded = self._failures_by_codemod.setdefault(codemod_name, [])\n        for failed_file in failed_files:\n            recorded.append(failed_file)")],
     "silent")
+CM2 = "codemodder/codemodder.py"
+add("C15", "early-success-return-skips-report", CM2,
+    [("    context.semgrep_prefilter_results = find_semgrep_results(", "    if not codemods_to_run:\n        return 0\n    context.semgrep_prefilter_results = find_semgrep_results(")],
+    "fire", "R-REPORT-COMPLETE", "run")
+add("C15", "metadata-update-drops-changesets-without-findings", "codemodder/utils/update_finding_metadata.py",
+    [("    # TODO: eventually make this functional and return a new list\n    return changesets", "    return [cs for cs in changesets if any(change.findings for change in cs.changes)]")],
+    "fire", "R-REPORT-COMPLETE", "update_finding_metadata")
+add("C03", "before-operand-loses-leading-blank-lines", REQW,
+    [("        original_lines = lines.copy()\n", "        original_lines = lines.copy()\n        while original_lines and not original_lines[0].strip():\n            del original_lines[0]\n")],
+    "fire", "R-DIFF-WRITE-AGREE", "RequirementsTxtWriter.add_to_file")
